@@ -92,9 +92,7 @@ def siteTable : List (Gen.Site × Disposition × String) := [
   (⟨"expand.rs", "render_enum_line", "todo!()"⟩, .modelled, "expand.rs:render_enum_line:todo"),
   (⟨"expand.rs", "render_ghost_line", "unreachable!(\"7\")"⟩, .modelled, "expand.rs:render_ghost_line:unreachable(7)"),
   (⟨"expand.rs", "render_enum_ghost_line", "unreachable!(\"17\")"⟩, .modelled, "expand.rs:render_enum_ghost_line:unreachable(17)"),
-  (⟨"expand.rs", "quote_try_from_trait", "unwrap(ctx . struct_attr . err_ty . as_ref ())"⟩, .modelled, "expand.rs:quote_try_*_trait:err_ty unwrap"),
-  (⟨"expand.rs", "quote_try_into_trait", "unwrap(ctx . struct_attr . err_ty . as_ref ())"⟩, .modelled, "expand.rs:quote_try_*_trait:err_ty unwrap"),
-  (⟨"expand.rs", "quote_try_into_existing_trait", "unwrap(ctx . struct_attr . err_ty . as_ref ())"⟩, .modelled, "expand.rs:quote_try_*_trait:err_ty unwrap"),
+  (⟨"expand.rs", "quote_err_ty", "unwrap(ctx . struct_attr . err_ty . as_ref ())"⟩, .modelled, "expand.rs:quote_try_*_trait:err_ty unwrap"),
   (⟨"expand.rs", "get_ident", "unreachable!(\"8\")"⟩, .modelled, "expand.rs:ApplicableAttr::get_ident:unreachable(8)"),
   (⟨"expand.rs", "get_ident", "unreachable!(\"18\")"⟩, .modelled, "expand.rs:ApplicableAttr::get_ident:unreachable(18)"),
   (⟨"expand.rs", "get_ident", "unreachable!(\"19\")"⟩, .modelled, "expand.rs:ApplicableAttr::get_ident:unreachable(19)"),
